@@ -415,11 +415,16 @@ public:
   inline void* allocate(size_t size, size_t& allocated) {
     // Increase to alignment
     size_t alignedSize = (size + sizeof(double) - 1) & ~(sizeof(double) - 1);
-    if (alignedSize > SourceHeap::AllocSize) {
-      alignedSize = SourceHeap::AllocSize;
+    // a block can hold at most AllocSize minus its header
+    if (alignedSize > SourceHeap::AllocSize - sizeof(Block)) {
+      alignedSize = SourceHeap::AllocSize - sizeof(Block);
+    }
+    // no current block yet (fresh heap, or after clear())
+    if (!head) {
+      refill();
     }
     // Check current block
-    if (!head || offset + alignedSize > SourceHeap::AllocSize) {
+    if (offset + alignedSize > SourceHeap::AllocSize) {
       size_t remaining = SourceHeap::AllocSize - offset;
       assert((remaining & (sizeof(double) - 1)) ==
              0); // should still be aligned
